@@ -18,10 +18,11 @@
 //     0-based rune index; a LF ends a line; EOF is an empty token at the position after the
 //     last rune.
 //
-// What it leaves open (reported through Result.Masked, never judged): a block comment that
-// is not closed before the end of input (the grammar knows no such comment, the
-// implementation accepts it silently), and escapes that do not denote a Unicode scalar
-// value (surrogates, > 0x10FFFF).
+// What it leaves open: escapes that do not denote a Unicode scalar value (surrogates,
+// > 0x10FFFF) are reported through Result.Masked and never judged. A block comment that is not
+// closed before the end of input (Result.OpenComment) may either be rejected or extend to the
+// end of the text - but no character behind the `/*` may become a token, because then `/*`
+// would neither be tokens nor a comment.
 package reflex
 
 import (
@@ -53,6 +54,10 @@ type Result struct {
 	Toks   []Tok
 	Err    *LexErr
 	Masked []string
+	// OpenComment is the position of a `/*` that is not closed before the end of the text. The
+	// reference then treats the rest of the text as comment (Toks ends with EOF at the end of
+	// the text); rejecting the text is an equally acceptable reading (see package comment).
+	OpenComment *Pos
 }
 
 // Operators is the operator/punctuation inventory, longest first.
@@ -136,6 +141,7 @@ func Lex(src, file string) Result {
 			continue
 		}
 		if r == '/' && s.at(1) == '*' {
+			open := s.pos()
 			s.adv()
 			s.adv()
 			closed := false
@@ -149,7 +155,7 @@ func Lex(src, file string) Result {
 				s.adv()
 			}
 			if !closed {
-				mask("unterminated-block-comment")
+				res.OpenComment = &open
 			}
 			continue
 		}
